@@ -23,6 +23,8 @@ CONSTANTS Mode,         \* "dag" | "pregel" | "wf"
           MaxEdges,
           FailKinds,    \* subset of {"err", "panic"}: one END-feeding node may fail this way (the empty choice is always included)
           AllowDangling, \* wf: nodes that nothing consumes (executions the run does not wait for)
+          MaxKind,      \* wf: up to this many edges are control-only (AddDependency, "c") or data-only (input without direct dependency, "d")
+                        \*     instead of control+data ("cd"); only in cases without failing / rerun nodes and marks
           MaxMark,      \* up to this many static interrupt marks (interrupt-after / interrupt-before nodes), only without failing / rerun nodes
           MaxRerun      \* up to this many END-feeding nodes ask for InterruptAndRerun on their first attempt (only without a failing node)
 
@@ -34,15 +36,15 @@ Ord(n) == CASE n = START -> 0 [] n = "a" -> 1 [] n = "b" -> 2 [] n = "c" -> 3 []
 EdgeU == {e \in (Nodes \cup {START}) \X (Nodes \cup {END}) : Ord(e[1]) < Ord(e[2]) /\ ~(e[1] = START /\ e[2] = END)}
 ERank(e) == Ord(e[1]) * 10 + Ord(e[2])
 
-VARIABLES phase, edges, fail, rerun, marks
-vars == <<phase, edges, fail, rerun, marks>>
+VARIABLES phase, edges, fail, rerun, marks, kinds
+vars == <<phase, edges, fail, rerun, marks, kinds>>
 
 NoMarks == [after |-> {}, before |-> {}]
-Init == phase = "e" /\ edges = {} /\ fail = <<>> /\ rerun = {} /\ marks = NoMarks
+Init == phase = "e" /\ edges = {} /\ fail = <<>> /\ rerun = {} /\ marks = NoMarks /\ kinds = <<>>
 
 MaxRank == IF edges = {} THEN 0 ELSE CHOOSE m \in {ERank(x) : x \in edges} : \A y \in edges : ERank(y) <= m
 AddEdge(e) == /\ phase = "e" /\ Cardinality(edges) < MaxEdges /\ ERank(e) > MaxRank
-              /\ edges' = edges \cup {e} /\ UNCHANGED <<phase, fail, rerun, marks>>
+              /\ edges' = edges \cup {e} /\ UNCHANGED <<phase, fail, rerun, marks, kinds>>
 
 Preds(n) == {e[1] : e \in {x \in edges : x[2] = n}}
 Succs(n) == {e[2] : e \in {x \in edges : x[1] = n}}
@@ -55,6 +57,16 @@ Level(n) == IF n = START THEN 0
 EndAnc == AncOf(END)
 Parallel == \E x, y \in Nodes : x # y /\ ~Before(x, y) /\ ~Before(y, x)
 Layered == \A n \in Nodes \cup {END} : \A p, q \in Preds(n) : Level(p) = Level(q)
+\* edge kinds: kk maps the non-default edges to "c" / "d".  A data-only edge needs a control path from its source to its target,
+\* every node (and END) keeps a control predecessor, END keeps a data predecessor, the workflow keeps a direct start dependency
+KindIn(kk, e) == IF e \in DOMAIN kk THEN kk[e] ELSE "cd"
+CEdgesK(kk) == {e \in edges : KindIn(kk, e) # "d"}
+RECURSIVE CAncK(_, _)
+CAncK(kk, n) == LET P == {e[1] : e \in {x \in CEdgesK(kk) : x[2] = n}} IN P \cup UNION {CAncK(kk, p) : p \in P \ {START}}
+KindOK(kk) == /\ \A e \in DOMAIN kk : kk[e] = "d" => e[1] \in CAncK(kk, e[2])
+              /\ \A n \in Nodes \cup {END} : \E e \in CEdgesK(kk) : e[2] = n
+              /\ \E e \in edges : e[2] = END /\ KindIn(kk, e) # "c"
+              /\ \E e \in CEdgesK(kk) : e[1] = START
 WellFormed ==
   /\ \A n \in Nodes : Preds(n) # {}
   /\ Preds(END) # {}
@@ -71,6 +83,11 @@ Finish == /\ phase = "e" /\ WellFormed
                /\ Cardinality(m.after) + Cardinality(m.before) <= MaxMark
                /\ ((fail' # <<>> \/ rerun' # {}) => m = NoMarks)
                /\ marks' = m
+          /\ \E K \in SUBSET edges : \E kk \in [K -> {"c", "d"}] :
+               /\ Cardinality(K) <= (IF Mode = "wf" THEN MaxKind ELSE 0)
+               /\ ((fail' # <<>> \/ rerun' # {} \/ marks' # NoMarks) => K = {})
+               /\ KindOK(kk)
+               /\ kinds' = kk
           /\ phase' = "done" /\ UNCHANGED edges
 Next == (\E e \in EdgeU : AddEdge(e)) \/ Finish
 Spec == Init /\ [][Next]_vars
@@ -88,7 +105,7 @@ SeqOfSet(S, R(_)) == LET RECURSIVE F(_)
                          F(T) == IF T = {} THEN <<>> ELSE LET x == CHOOSE y \in T : \A z \in T : R(y) <= R(z) IN <<x>> \o F(T \ {x})
                      IN F(S)
 NodeSeq == SeqOfSet(Nodes, Ord)
-EdgeSeq == [i \in 1..Cardinality(edges) |-> LET e == SeqOfSet(edges, ERank)[i] IN <<e[1], e[2]>>]
+EdgeSeq == [i \in 1..Cardinality(edges) |-> LET e == SeqOfSet(edges, ERank)[i] IN <<e[1], e[2], KindIn(kinds, e)>>]
 Case == [mode |-> Mode, nodes |-> NodeSeq, edges |-> EdgeSeq, fail |-> fail, rerun |-> SeqOfSet(rerun, Ord), after |-> SeqOfSet(marks.after, Ord), before |-> SeqOfSet(marks.before, Ord), orders |-> LinExt(Nodes), probes |-> Probes]
 Emit == phase = "done" => PrintT(<<"CASE", ToJson(Case)>>)
 ================================================================================
